@@ -1144,6 +1144,16 @@ impl OpsWorld {
         }
         self.absorb_kernel_log();
         self.absorb_spontaneous();
+        // C04, kernel-thread rings: the thread picks up submissions only while it is awake; a Ring::poll
+        // that returns with submissions queued and the thread asleep has not woken it -- and nobody will.
+        // (Demanded, like the wake-ups for queue space, of a call that had no completions to hand over
+        // first: one that had is followed by one that goes into the kernel.)
+        if self.cfg.sqpoll && cq_empty_at_call {
+            let (pending, idle) = simk::with(|k| (k.rings[0].sq_pending(), k.rings[0].sq_thread_idle));
+            if pending > 0 && idle {
+                self.report("C04", "submission-stuck/kernel-thread-asleep", format!("Ring::poll returned with {pending} submission(s) queued while the kernel thread sleeps (IORING_SQ_NEED_WAKEUP is set): it was not woken, the accepted submissions do not reach the kernel"));
+            }
+        }
         // C05: everything published before the call was handed over.
         let (head, tail, ovf) = simk::with(|k| (k.rings[0].cq_head(), k.rings[0].cq_tail(), k.rings[0].overflow.len()));
         if head != tail {
